@@ -8,7 +8,7 @@ from harness.c13 import translate_b as TB
 
 ID = 'C13'
 HERE = os.path.dirname(os.path.abspath(__file__))
-CASES = {'quick': 19000, 'thorough': 175000}
+CASES = {'quick': 20000, 'thorough': 180000}
 PARALLEL = True
 PROOF_TIMEOUT = 900
 ALLOWED_AXIOMS = ()
@@ -37,15 +37,16 @@ ASSUMPTIONS = [
     'AppEnvironment constructor do not raise; the name->definition bindings in harness/c13/translate.py BIND are right',
     'part (a): a for loop may raise at each iteration; `except X` (X not BaseException) may or may not catch',
     'part (b): the default execution policy; exception views: any subset of {view for Exception, view for HTTPException, '
-    'default exceptionresponse view}, without predicates; at most one subrequest per view, started from the view body; '
+    'default exceptionresponse view}, without predicates; at most one subrequest per request, started from the view body '
+    'or from the tween over the excview tween on egress (not from exception views: a PredicateMismatch escaping such a '
+    'subrequest would make _call_view try the next exception view, which starts another one); '
     'components are the instrumented ones of harness/c13/app.py; thread independence is tested (two-thread '
     'interleavings in quick, 16-thread soak in thorough), not proved',
-    'a finished callback that itself raises stops the remaining finished callbacks (documented behaviour): the callback '
-    'clause of the property is only judged for scenarios without a raising finished callback',
+    'a finished callback that itself raises stops the remaining finished callbacks (documented behaviour); the judge then '
+    'demands what the code guarantees: the callbacks that ran are a prefix of the registered ones (once, in order, after '
+    'everything else) and the run stops short only at a callback that raises',
     'the event gate registry.has_listeners is never switched off: checked structurally on every run (exact list of the '
     'places in src/pyramid that store the flag, exact list of names the Registry class defines), not proved',
-    'retry cases: the full judge_retry statement is proved only in parts (depth / currency, first attempt, finished '
-    'callbacks of both attempts); the rest is TODO (unproved) and validated by evaluating judge_retry on the model run',
     'callbacks may register callbacks of their own kind; each registration entry of a callback fires once (it names the '
     'running number of the callback that makes it), so chains are bounded',
 ]
@@ -54,9 +55,9 @@ TRUSTED = ['Python-ast -> stmt translator harness/c13/translate.py (fail-closed;
            'written by hand) for _process_response_callbacks, _process_finished_callbacks, Router.finish_request, '
            'invoke_request, request_context, invoke_subrequest, default_execution_policy, RequestContext.begin/end/'
            '__enter__/__exit__, _error_handler, excview_tween',
-           'hand-written pipeline model coq/Model/C13.v part (b): the functions above are regenerated and proved equal to '
-           'it; Router.handle_request, _call_view, invoke_exception_view, _find_views, the view derivers stay '
-           'shape-pinned (differential correspondence)',
+           'hand-written pipeline model coq/Model/C13.v part (b): the functions above, Router.handle_request and '
+           'ViewMethodsMixin.invoke_exception_view (hide_attrs inlined) are regenerated and proved equal to it; _call_view, '
+           '_find_views, the view derivers stay shape-pinned (differential correspondence)',
            'WebOb request/response, zope.interface adapter lookup, view derivers (exercised for real, not modelled)']
 TECHNIQUE = ('Coq: verified path-summary analysis (analyse_sound) run by vm_compute on push/pop skeletons regenerated from '
              'the source on every run; the router/tween/callback functions translated on every run into an '
@@ -83,19 +84,22 @@ LEVEL_TEXT = ('Machine-checked: (a) for the regenerated skeletons of Router.__ca
               'C13_gen_satisfies_judge); (d) for one request object sent through invoke_request twice inside one request '
               'context: stack restored and every event under its own request (C13_retry_depth), the first attempt '
               'satisfies the judge, the finished callbacks of each attempt run once, in order, last, and the second attempt '
-              'starts with an empty deque (C13_retry_finished_callbacks).')
+              'starts with an empty deque (C13_retry_finished_callbacks), and the whole run satisfies judge_retry '
+              '(C13_retry_judged, via C13_pass_judged: one pass from any carried-over state). Router.handle_request and '
+              'invoke_exception_view are translated too (generated = reference = model). When a finished callback raises, '
+              'the callbacks that ran are a prefix ending at the raising one (C13_finished_callbacks_prefix_when_one_raises; '
+              'the judge demands it).')
 LEVEL_NOTE = ('Trusted: Coq kernel; the two translators with their binding / leaf tables; the hand-written parts of the pipeline '
               'model (handle_request, view lookup, exception-view selection: shape-pinned, validated by the fault-injection '
               'correspondence); what a leaf means (prims_of in Model/C13.v); Python harness. The judge proved of the model is the same '
               'extracted judge that is evaluated on every observation of the implementation.')
 
 PINS_SPEC = {
-    'pyramid/router.py': ['Router.handle_request', 'Router.__call__', 'Router.__init__'],
+    'pyramid/router.py': ['Router.__call__', 'Router.__init__'],
     'pyramid/threadlocal.py': ['ThreadLocalManager', 'get_current_request', 'get_current_registry', 'defaults'],
     'pyramid/request.py': ['add_global_response_headers', 'RequestLocalCache.set'],
-    'pyramid/view.py': ['_call_view', 'ViewMethodsMixin.invoke_exception_view', '_find_views', 'render_view_to_response'],
+    'pyramid/view.py': ['_call_view', '_find_views', 'render_view_to_response'],
     'pyramid/scripting.py': ['AppEnvironment.__enter__', '_make_request'],
-    'pyramid/util.py': ['hide_attrs'],
     'pyramid/registry.py': ['Registry.notify', 'Registry.registerHandler', 'Registry.registerSubscriptionAdapter'],
     'pyramid/config/__init__.py': ['Configurator._fix_registry'],
     'pyramid/viewderivers.py': ['_secured_view', 'rendered_view'],
@@ -532,7 +536,7 @@ def rand_scn(rng, depth):
         regs.append([p, rng.choice([1, 2, 3]), rng.choice([0, 0, 1, 2]) if p in (16, 18) else 0])
     sub = None
     if depth > 0 and rng.random() < 0.55:
-        sub = {'tweens': rng.choice([0, 1]), 'scn': rand_scn(rng, depth - 1)}
+        sub = {'tweens': rng.choice([0, 1]), 'place': rng.choice([0, 0, 1]), 'scn': rand_scn(rng, depth - 1)}
     return scn(rng.choice([0, 1]), faults, regs, sub)
 
 
@@ -556,6 +560,19 @@ def generate(rng, tier, n):
                            'scn': scn(1, [], [[1, 3, 0], [12, 2, 0], [18, 2, 0]],
                                       {'tweens': tw, 'scn': scn(0, [[p, kind, 0]], [[3, 3, 0], [12, 3, 0], [16, 1, 0]])})}
                     k += 1
+    # the subrequest started from the TWEEN over the excview tween (on egress) instead of from the view
+    for tw in (0, 1):
+        for ev in (0, 1, 7):
+            for p in POINTS:
+                for kind in (1, 2, 3):
+                    yield {'t': 'req', 'excview': ev,
+                           'scn': scn(1, [], [[1, 3, 0], [12, 2, 0], [18, 2, 0]],
+                                      {'tweens': tw, 'place': 1,
+                                       'scn': scn(0, [[p, kind, 0]], [[3, 3, 0], [12, 3, 0], [16, 1, 0]])})}
+                    yield {'t': 'req', 'excview': ev,
+                           'scn': scn(0, [[p, kind, 0]], [[1, 3, 0], [12, 2, 0], [18, 2, 0]],
+                                      {'tweens': tw, 'place': 1, 'scn': scn(1, [], [[3, 3, 0], [12, 3, 0]])})}
+                    k += 2
     m = max(0, n - len(fixed) - k)
     for i in range(m):
         if i % 8 == 7:
@@ -582,7 +599,8 @@ def _valid_scn(s, depth):
     if len(s['regs']) > 12 or len(s['faults']) > 8:
         return False
     if s['sub'] is not None:
-        if not (isinstance(s['sub'], dict) and set(s['sub']) == {'tweens', 'scn'} and s['sub']['tweens'] in (0, 1)):
+        if not (isinstance(s['sub'], dict) and set(s['sub']) in ({'tweens', 'scn'}, {'tweens', 'scn', 'place'})
+                and s['sub']['tweens'] in (0, 1) and s['sub'].get('place', 0) in (0, 1)):
             return False
         return _valid_scn(s['sub']['scn'], depth + 1)
     return True
@@ -642,6 +660,8 @@ def shrinks(case):
                 yield dict(s, sub=dict(s['sub'], scn=v))
             if s['sub']['tweens']:
                 yield dict(s, sub=dict(s['sub'], tweens=0))
+            if s['sub'].get('place', 0):
+                yield dict(s, sub=dict(s['sub'], place=0))
     for v in sub_variants(case['scn']):
         yield dict(case, scn=v)
     if case['t'] == 'retry':
@@ -771,7 +791,7 @@ def run_impl(case):
 # ------------------------------------------------------------ wire
 def _scn_wire(s):
     return [s['route'], [list(f) for f in s['faults']], [list(r) for r in s['regs']],
-            [] if s['sub'] is None else [s['sub']['tweens'], _scn_wire(s['sub']['scn'])]]
+            [] if s['sub'] is None else [s['sub']['tweens'], s['sub'].get('place', 0), _scn_wire(s['sub']['scn'])]]
 
 
 def to_wire(case):
@@ -909,6 +929,9 @@ def kinds(case, obs):
         k.append('finished-callback-ran')
     if any(e[1] > 0 for e in obs[2]):
         k.append('subrequest-ran')
+        s0 = case['scn']
+        if s0.get('sub') and s0['sub'].get('place', 0) == 1:
+            k.append('subrequest-started-from-the-over-tween')
     if any(e[0] == 18 and e[4] == 18 for e in obs[2]):
         k.append('finished-callback-registered-by-finished-callback-ran')
     if any(e[0] == 16 and e[4] == 16 for e in obs[2]):
